@@ -330,8 +330,8 @@ def enum_job(ck, prog, natbin, ename, quick):
     native.close()
 
 
-def main():
-    ck = Check("C09")
+def prepare(ck):
+    """configure `ck` and return the list of jobs of this property's exploration"""
     ck.crate = "hrecv"
     quick = ck.tier == "quick"
     names = [en["name"] for en in S.ENUMS]
@@ -345,7 +345,12 @@ def main():
     natbin = build.build_native("hrecv")
     for n in names:
         ck.programs.add("hrecv::%s" % n)
-    ck.run_jobs([(lambda sub, n=n: enum_job(sub, prog, natbin, n, quick)) for n in names])
+    return [(lambda sub, n=n: enum_job(sub, prog, natbin, n, quick)) for n in names]
+
+
+def main():
+    ck = Check("C09")
+    ck.run_jobs(prepare(ck))
     ck.require_reached(["ok", "err:unknown", "err:TooFewItems", "err:TooManyItems", "err:format", "err:UnknownValue", "none"])
     ck.finish()
 
